@@ -482,15 +482,31 @@ def read_subcommands():
 
 
 # ----------------------------------------------------------------------------- assemble
-def table():
-    """The option table as Python data (also used by the harness to generate command lines)."""
+def table(lenient=False):
+    """The option table as Python data (also used by the harness to generate command lines).
+    lenient=True (used only by the failing-input search of harness/c20.py after the strict translation failed):
+    the shape checks of the configuration-file reader do not abort; the table of options is still extracted."""
     tree = parse(os.path.join('jug', 'options.py'))
     common = read_common(tree)
     top, extras, subdest = read_parse(tree)
     main_defaults = read_main_defaults(tree)
-    coerce = read_coercion(tree)
-    falses = read_false_strings(tree)
-    check_key_to_option(tree)
+    if lenient:
+        try:
+            coerce = read_coercion(tree)
+        except TranslateError:
+            coerce = None
+        try:
+            falses = read_false_strings(tree)
+        except TranslateError:
+            falses = []
+        try:
+            check_key_to_option(tree)
+        except TranslateError:
+            pass
+    else:
+        coerce = read_coercion(tree)
+        falses = read_false_strings(tree)
+        check_key_to_option(tree)
     subs, specific, sub_defaults, defaults_of = read_subcommands()
     for e in common + extras + specific:
         if e['action'] == 'version':
